@@ -606,3 +606,176 @@ def check_root_headers(chk, prog):
         ok3 = ok3 and any((x.get("truth") is True and x["desc"][0] == "call" and x["desc"][1].p.endswith("::contains")) for x in guards(g, c.bb))
     chk.judge(ok2 and ok3, R, "root_node:signature", "shared-root key covers every header's constraints; cache consulted only for shared signatures",
               "root_node's cache key ignores some header constraints, or an unshared signature is looked up in the shared cache: two plans with different constant filters share a root", g.loc)
+
+
+# ---------------------------------------------------------------------------------------------------------------
+def check_atom_lowering(chk, prog):
+    R = chk.rule("R-ATOM-LOWERING", "QueryBuilder::add_atom: (a) the closure that maps the atom's entries to constraints returns Some(EqConst{col: <enumerate index>, val: <the constant>}) for a "
+                 "QueryEntry::Const and None only for a Var; (b) when VarColumnMap::insert reports that the variable already has a column in this atom, a Constraint::Eq between the new "
+                 "and the previous column is pushed onto the atom's slow constraints (repeated variables filter); (c) every variable column is recorded as an occurrence. "
+                 "RuleBuilder::query_prim: the deferred closure either binds the primitive's result to a not-yet-grounded output variable or asserts equality with the expected entry — "
+                 "never neither. BackendRule::query and Query::build_cached_plan visit every atom of the body.")
+    f = prog.need_role("egglog_core_relations::query::QueryBuilder::add_atom",
+                       lambda g: g.name.startswith("egglog_core_relations::query::") and any(c.p.endswith("Database::process_constraints") for c in g.calls), "the atom lowering of QueryBuilder")
+    # (a)
+    ok_a = False
+    for h in prog.children(f):
+        for i, j, s in h.assigns():
+            rv = s[2]
+            if rv[0] == "agg" and rv[1] == "adt" and rv[2] == CONSTRAINT and rv[3] == "EqConst":
+                col = h.origins(rv[4][0])
+                val = h.origins(rv[4][1])
+                col_ok = any(a[0] == "call" and a[1].endswith("::from_usize") for a in col)
+                if col_ok:
+                    cc = [h.call_at(a[2]) for a in col if a[0] == "call"]
+                    col_ok = all(any(x[0] == "param" and x[1] == 2 and x[2][:1] == ("0",) for x in h.origins(c.args[0])) for c in cc)
+                val_ok = bool(val) and all(x[0] == "param" and x[1] == 2 and "@Const" in x[2] for x in val)
+                # guarded by the Const variant of the entry; the None return by the Var variant
+                g_ok = any("variant" in g and any("QueryEntry" in h.locals[g["place"][0]] or True for _ in [0]) for g in guards(h, i))
+                nones = [(bb) for (bb, idx, dproj, kind, payload) in h.defs.get(0, []) if kind == "a" and payload[0] == "agg" and payload[3] == "None"]
+                somes = [(bb) for (bb, idx, dproj, kind, payload) in h.defs.get(0, []) if kind == "a" and payload[0] == "agg" and payload[3] == "Some"]
+                arms = match_arms(prog, h, "egglog_core_relations::action::QueryEntry")
+                arm_ok = False
+                for (sw, am, ow, place) in arms:
+                    if "Const" in am and "Var" in am:
+                        cr = arm_region(h, sw, am["Const"])
+                        vr = arm_region(h, sw, am["Var"])
+                        if somes and all(b in cr for b in somes) and i in cr and nones and all(b in vr for b in nones):
+                            arm_ok = True
+                ok_a = col_ok and val_ok and g_ok and arm_ok
+    chk.judge(ok_a, R, "QueryBuilder::add_atom:const->EqConst", "a constant in column i becomes EqConst{col: i, val: the constant}",
+              "a literal argument of a body atom is not lowered to an EqConst constraint on its own column (the atom would match rows with any value there)", f.loc)
+    # (b)
+    ok_b = False
+    ins = [c for c in f.calls if c.p.endswith("VarColumnMap::insert")]
+    for c in ins:
+        sw = c.target
+        # find the switch on the discriminant of the result
+        some_regions = []
+        for b in sorted(f.live):
+            t = f.term(b)
+            if t[0] != "switch":
+                continue
+            d = f.describe_operand(t[1])
+            if d and d[0] == "disc" and d[1][0] == c.dest[0]:
+                for v, tb in t[2]:
+                    if v == "1":
+                        some_regions.append((b, tb))
+        for (b, tb) in some_regions:
+            reg = arm_region(f, b, tb)
+            for p in f.calls:
+                if p.bb in reg and p.p.endswith("::push"):
+                    dst = f.origins(p.args[0])
+                    val = f.origins(p.args[1])
+                    if any(atom_path(a) and atom_path(a)[-1:] == ("slow",) for a in dst) and any(a[0] == "agg" and a[3] == "Eq" and a[2] == CONSTRAINT for a in val):
+                        # the Eq's two columns: the new column and the previous one returned by insert
+                        for a in val:
+                            if a[0] == "agg":
+                                st = f.stmt(a[4], a[5])
+                                o1, o2 = f.origins(st[2][4][0]), f.origins(st[2][4][1])
+                                both = o1 | o2
+                                if any(x[0] == "call" and x[2] == c.bb for x in both) and any(x[0] == "call" and x[1].endswith("::from_usize") for x in both):
+                                    ok_b = True
+    chk.judge(bool(ins) and ok_b, R, "QueryBuilder::add_atom:repeated-var->Eq", "a variable repeated within one atom adds Eq{new column, previous column} to the slow constraints",
+              "a variable repeated within one atom does not produce a column-equality constraint (the atom `(R x x)` would match every row)", f.loc)
+    # (c) occurrences
+    ok_c = any(c.p.endswith("::push") and any(atom_path(a) and "occurrences" in atom_path(a) for a in f.origins(c.args[0])) for c in f.calls)
+    chk.judge(ok_c, R, "QueryBuilder::add_atom:occurrences", "each variable's columns are recorded as an occurrence of the new atom",
+              "add_atom no longer records variable occurrences (the planner would not join on the variable)", f.loc)
+    # query_prim
+    qp = prog.need_role("egglog_bridge::rule::RuleBuilder::query_prim", lambda g: g.name.startswith("egglog_bridge::rule::") and g.kind != "closure" and
+                        any(any(c.p.endswith("RuleBuilder::call_external") for c in h.calls) and any(c.p.endswith("RuleBuilder::assert_eq") for c in h.calls) for h in prog.children(g)),
+                        "the primitive-atom lowering of the bridge's RuleBuilder")
+    ok_p = False
+    for h in prog.children(qp):
+        asserts = {c.bb for c in h.calls if c.p.endswith("RuleBuilder::assert_eq")}
+        binds = {c.bb for c in h.calls if c.p.endswith("::insert") and any(atom_path(a) and "mapping" in atom_path(a) for a in h.origins(c.args[0]))}
+        calls = [c for c in h.calls if c.p.endswith("RuleBuilder::call_external")]
+        if not asserts or not binds or not calls:
+            continue
+        ce = calls[0]
+        # after a successful call_external: no path to a normal return avoids both bind and assert (the `?` error exit is exempt)
+        good = asserts | binds
+        # blocks that set the return value to an error (`?` / Err(..)) end the obligation: the rule is not built at all
+        err_blocks = set()
+        for (bb, idx, dproj, kind, payload) in h.defs.get(0, []):
+            if (kind == "call" and payload.p.endswith("from_residual")) or (kind == "a" and payload[0] == "agg" and payload[3] == "Err"):
+                err_blocks.add(bb)
+        bad = False
+        seen = set()
+        stack = [ce.target]
+        while stack:
+            x = stack.pop()
+            if x in seen or x in good or x in err_blocks:
+                continue
+            seen.add(x)
+            if h.term(x)[0] == "ret":
+                bad = True
+                break
+            stack.extend(h.succ[x])
+        # the bind is guarded by !grounded.contains
+        bind_guarded = all(any(g.get("truth") is False and g["desc"][0] == "call" and g["desc"][1].p.endswith("::contains") for g in guards(h, b)) for b in binds)
+        ok_p = (not bad) and bind_guarded
+    chk.judge(ok_p, R, "RuleBuilder::query_prim:bind-or-assert", "a primitive atom binds a fresh output variable or asserts equality with the expected value",
+              "a primitive atom in a rule body neither binds nor checks its result on some path (the guard would not filter), or binds an already-grounded variable", qp.loc)
+    # every atom visited
+    for (name, role, pidx, path, sinks, what) in (
+        ("egglog::BackendRule::query", lambda g: g.name.startswith("egglog::") and any(c.p.endswith("RuleBuilder::query_table") for c in g.calls) and any(c.p.endswith("RuleBuilder::query_prim") for c in g.calls),
+         2, ("atoms",), ("RuleBuilder::query_table", "RuleBuilder::query_prim"), "BackendRule::query"),
+        ("egglog_bridge::rule::Query::build_cached_plan", lambda g: g.name.startswith("egglog_bridge::rule::") and any(c.p.endswith("RuleSet::build_cached_plan") for c in g.calls),
+         1, ("atoms",), ("rule::add_atom",), "Query::build_cached_plan"),
+    ):
+        g = prog.need_role(name, role, what)
+        loops = loop_over_path(g, pidx, path)
+        ok = len(loops) == 1
+        if ok:
+            nx, some = loops[0]
+            good = {c.bb for c in g.calls if c.p.endswith(sinks)}
+            ok = bool(good) and every_iteration_passes_or_errs(g, nx, some, good)
+        chk.judge(ok, R, f"{what}:every-atom", "a plain loop over the body's atoms hands every atom to the rule builder",
+                  f"{what} does not hand every atom of the body to the rule builder (an atom can be skipped without an error)", g.loc)
+
+
+def _is_err_exit(h, ret_bb, seen):
+    """the return value at ret_bb comes from FromResidual::from_residual / an Err aggregate only"""
+    at = h.origins([0, []])
+    if not at:
+        return False
+    # find definitions of _0 reachable on this path: accept if every def of _0 inside `seen` is an error construction
+    ok = False
+    for (bb, idx, dproj, kind, payload) in h.defs.get(0, []):
+        if bb not in seen:
+            continue
+        if kind == "call" and payload.p.endswith("from_residual"):
+            ok = True
+        elif kind == "a" and payload[0] == "agg" and payload[3] == "Err":
+            ok = True
+        else:
+            return False
+    return ok
+
+
+def loop_over_path(f, param, path):
+    """`for x in <param>.<path>` loops: (next-call, Some-arm successor); the iterator must be the field itself"""
+    out = []
+    for c in f.calls:
+        if not (c.p.endswith("Iterator>::next") or c.p.endswith("Iterator::next")):
+            continue
+        at = f.origins(c.args[0])
+        if not at or not all(a[0] == "param" and a[1] == param and tuple(a[2]) == tuple(path) for a in at):
+            continue
+        sw = c.target
+        if sw is None or f.term(sw)[0] != "switch":
+            continue
+        some = [tb for v, tb in f.term(sw)[2] if v == "1"]
+        if some:
+            out.append((c, some[0]))
+    return out
+
+
+def every_iteration_passes_or_errs(f, nx, some, good):
+    """from the Some arm, the loop header is not reachable again without passing a `good` block"""
+    if some in good:
+        return True
+    r = {some} | f.reach_avoiding([some], good)
+    return nx.bb not in r
